@@ -234,6 +234,7 @@ Next ==
               sn == seen \cup {aa[k].addr : k \in 1..Len(aa)}
               verdict ==
                 IF e.exc = 1 THEN "process_raw_raised"
+                ELSE IF \E k \in 1..Len(e.post) : e.post[k].wild = 1 THEN "table_holds_absurd_value"
                 ELSE IF ~EncoderOK(e) THEN "oracle:harness_encoder_differs_from_spec"
                 ELSE IF ~GateOK(e, sn) THEN (IF e.dup = 1 THEN "two_keys_for_one_address" ELSE "commb_or_unknown_aircraft_listed")
                 ELSE IF ~FreshOK(e, h) THEN "staleness_bound"
